@@ -127,3 +127,30 @@ def short(obj, n=1500):
     if len(s) <= n:
         return json.loads(s)
     return {"truncated": s[:n]}
+
+
+import contextlib as _contextlib
+
+PYDSOL_LOGGERS = ["utils", "distributions", "eventlist", "experiment", "interfaces", "model", "parameters", "pubsub", "simevent",
+                  "simulator", "statistics", "streams", "units"]
+
+
+@_contextlib.contextmanager
+def library_loggers_at(level):
+    """the library's module loggers (named after its modules) switched to `level` - what a user does to see its debug output -
+    while their handlers are silenced, so nothing is printed: only logger.isEnabledFor() changes"""
+    import logging
+    saved = []
+    for name in PYDSOL_LOGGERS:
+        lg = logging.getLogger(name)
+        saved.append((lg, lg.level, [(h, h.level) for h in lg.handlers]))
+        lg.setLevel(level)
+        for h in lg.handlers:
+            h.setLevel(logging.CRITICAL + 10)
+    try:
+        yield
+    finally:
+        for lg, lv, hs in saved:
+            lg.setLevel(lv)
+            for h, hl in hs:
+                h.setLevel(hl)
